@@ -1,6 +1,7 @@
 use core::alloc::Layout;
 use core::mem::MaybeUninit;
 use crate::mem::{Mem, MemBuilder};
+use crate::mem::{AlignedBytes, MAX_STACK_ALIGN};
 
 /// Fixed `SIZE` capacity on-stack memory for `N` elements.
 ///
@@ -19,27 +20,28 @@ impl<const N:usize, const SIZE: usize> MemBuilder for StackN<N, SIZE>{
     #[inline]
     fn build(&mut self, element_layout: Layout) -> Self::Mem {
         assert!(N*element_layout.size() <= SIZE, "Insufficient storage!");
+        assert!(element_layout.align() <= MAX_STACK_ALIGN, "Element alignment is too big for on-stack storage!");
         StackNMem{
-            mem: MaybeUninit::uninit(),
+            mem: AlignedBytes(MaybeUninit::uninit()),
             element_layout
         }
     }
 }
 
 pub struct StackNMem<const N:usize, const SIZE: usize>{
-    mem: MaybeUninit<[u8; SIZE]>,
+    mem: AlignedBytes<SIZE>,
     element_layout: Layout
 }
 
 impl<const N:usize, const SIZE: usize> Mem for StackNMem<N, SIZE>{
     #[inline]
     fn as_ptr(&self) -> *const u8 {
-        self.mem.as_ptr() as *const u8
+        self.mem.0.as_ptr() as *const u8
     }
 
     #[inline]
     fn as_mut_ptr(&mut self) -> *mut u8 {
-        self.mem.as_mut_ptr() as *mut u8
+        self.mem.0.as_mut_ptr() as *mut u8
     }
 
     #[inline]
